@@ -96,7 +96,15 @@ def plant_reified(rng, node, rm, counter=None):
         if fr and rm.unambiguous(base) and not rm.inverted(base) and rng.random() < 0.6 and t is not None:
             concept, sr, tr = fr
             counter[0] += 1
-            out.append((sr + '-of', (f'rf{counter[0]}', [('/', concept), (tr, t)])))
+            rf = f'rf{counter[0]}'
+            x = rng.random()
+            if x < 0.1 and not isinstance(t, tuple):
+                # the relation's other argument is the relation node itself (either side)
+                out.append((sr + '-of', (rf, [('/', concept), (tr, rf)])))
+            elif x < 0.2 and not isinstance(t, tuple):
+                out.append((tr + '-of', (rf, [('/', concept), (sr, rf)])))
+            else:
+                out.append((sr + '-of', (rf, [('/', concept), (tr, t)])))
         else:
             out.append((r, t))
     return (v, out)
